@@ -141,14 +141,15 @@ Section Refine.
 End Refine.
 
 Lemma cov_clean_via_any : forall (cl : blackbox),
-  (forall ac io s ov e, cl ac io s ov = CleanRaise e -> is_exception e = true) ->
+  well_behaved cl ->
   forall ac io s ov, covered (clean_via cl ac io s ov) (clean_any ac io s ov).
 Proof.
   intros cl Hcl ac io s ov r Hr. unfold clean_via, lift in Hr. destruct Hr as [<-|[]].
   unfold clean_any, may. simpl.
-  destruct (cl ac io s ov) as [|e] eqn:E.
+  destruct (cl ac io s ov) as [|e sf] eqn:E.
   - exists (Val tt). split; [left; reflexivity|left; reflexivity].
-  - destruct (wrapper_total_lemma e (Hcl _ _ _ _ _ E)) as [e' [He' Hs]]. rewrite He'.
+  - destruct (Hcl _ _ _ _ _ _ E) as [Hex ->].
+    destruct (wrapper_total_lemma e Hex) as [e' [He' Hs]]. rewrite He'.
     exists (Exc (Known K_InvalidValueError) S_lib). split; [right; left; reflexivity|].
     right. exists e'. repeat split. exact Hs.
 Qed.
